@@ -594,7 +594,11 @@ class C16(core.Property):
             return self.gen_policy(rng, tier, pol)
         if i % 3 == 2 and (i // 27) % 2 == 0:
             return self.gen_soft(rng, tier)
-        return self.gen_store(rng, tier, pol, wt=(i // 54) % 2)
+        case = self.gen_store(rng, tier, pol, wt=(i // 54) % 2)
+        # a scheduled operation stamped before the clock is discarded by the engine and would be judged as
+        # an operation that never completes: generated times are non-negative by construction, checked here
+        assert all(op[0] >= 0 for op in case.get("ops", [])) and (case.get("warm") or {"t": 0})["t"] >= 0, "negative time generated"
+        return case
 
     def gen_soft(self, rng, tier):
         soft = rng.choice([0, 10, 10, 20]) * MS
@@ -693,7 +697,7 @@ class C16(core.Property):
                 return rng.choice([10, 12, 20]) * MS            # sequential: no overlaps
             if style < 0.6:
                 return rng.choice([0, 0, 500_000, MS, MS, 2 * MS, 4 * MS, 5 * MS, 6 * MS])
-            return rng.choice([0, 100_000, MS, lat["rl"], lat["wl"], lat["wl"] - lat["rl"], 7 * MS])
+            return rng.choice([0, 100_000, MS, lat["rl"], lat["wl"], abs(lat["wl"] - lat["rl"]), 7 * MS])   # a gap is never negative: an operation stamped before the clock would be discarded by the engine
 
         if rng.random() < 0.3:
             # invalidate_all() (policy.clear()) rounds: fill the cache, touch the entries, drop everything,
